@@ -71,6 +71,15 @@ class C19:
         if r is not None and r[0] == "call" and r[1] == ("attr", ("attr", SELF, table_attr), "get") and len(r[2]) in (1, 2):
             if len(r[2]) == 1 or r[2][1] == NONE:
                 key_lookup = subst(r[2][0], {tagp: ("var", "tag")})
+        if r is None and len(enc.returns) == 2:
+            # try: return table[key] / except KeyError: return None  -- the same lookup as table.get(key)
+            hit = [x for x in enc.returns if x.term[0] == "sub" and x.term[1] == ("attr", SELF, table_attr) and not x.in_handler]
+            miss = [x for x in enc.returns if x.term == NONE and x.in_handler]
+            if len(hit) == 1 and len(miss) == 1:
+                tids = [t_ for t_ in enc.tries.values() if any(h == miss[0].in_handler[-1] and names == ("KeyError",) for h, names in t_.handlers)]
+                if tids and not enc.of("store") and not enc.raises:
+                    r = ("call", ("attr", ("attr", SELF, table_attr), "get"), (hit[0].term[2],), ())
+                    key_lookup = subst(hit[0].term[2], {tagp: ("var", "tag")})
         esite = f"{self.file}:{enc.node.lineno} SimpleEncoder.encode"
         if key_lookup is None:
             ctx.bad("R19.1", self.file, "SimpleEncoder.encode", f"return {show(r)[:60] if r else '-'}",
